@@ -8,8 +8,8 @@
 (*       in GenMax: [kind, N, m, lo (indexed by v+m+1), amb (the near-tie entries v)] *)
 (*  mat: small matrices with / without extract_diagonal:                              *)
 (*       [kind, N, ed, x, diag, off, mx, lo, hi]                                      *)
-EXTENDS Quant, Json
-CONSTANTS GenMax, GenShapes, GenVals
+EXTENDS Quant, Json, Randomization
+CONSTANTS GenMax, GenShapes, GenVals, SampleK
 
 Lattice(m) == [i \in 1..(2 * m + 1) |-> <<i - m - 1>>]
 ColInit == \E m \in GenMax : InitWith(Lattice(m), FALSE)
@@ -30,13 +30,21 @@ EmitMat == pc = "round" =>
      lo |-> [r \in Rows |-> [c \in Cols |-> SetMin(AllowedAt(r, c))]],
      hi |-> [r \in Rows |-> [c \in Cols |-> SetMax(AllowedAt(r, c))]]]))
 
+\* a random sample (TLC -seed) of SampleK larger matrices per shape and flag
+SampleInit == \E sh \in GenShapes : \E flag \in BOOLEAN :
+                \E fl \in RandomSubset(SampleK, [1..(sh[1] * sh[2]) -> GenVals]) :
+                  /\ flag => sh[1] = sh[2]
+                  /\ InitWith([i \in 1..sh[1] |-> [j \in 1..sh[2] |-> fl[(i - 1) * sh[2] + j]]], flag)
+SampleSpec == SampleInit /\ [][GNext]_vars
+
 \* quick / thorough lattices (the thorough ones are those of Quant_MC)
 G8_Max  == (1..300) \cup {126, 127, 128, 253, 254, 255, 380, 381, 382, 508, 635, 1016, 2032, 32767, 65535}
 G16_Max == (1..300) \cup {217, 434, 1057, 2114, 4681, 9362, 10922, 10923, 16383, 16384, 32767, 32768}
 G8T_Max  == G8_Max \cup {32766, 32768, 65534} \cup (301..700)
 G16T_Max == G16_Max \cup {32766} \cup (301..700)
-G_Shapes == {<<2, 2>>, <<3, 2>>}
+G_Shapes == {<<2, 2>>}
 G_Vals == {-3, -1, 0, 2, 5}
+GT_Shapes == {<<2, 2>>, <<3, 2>>}
 GS_Shapes == {<<3, 3>>, <<2, 3>>, <<4, 4>>, <<5, 2>>}
 GS_Vals == (-40)..40
 ====
